@@ -678,6 +678,10 @@ class AutonomousStateMachine(StateMachine):
 
     def on_enable(self) -> None:
         super().on_enable()
+        if self.is_executing:
+            # a previous run was never disabled: end it so this one starts
+            # from the first state
+            self.done()
         self.__engaged = True
 
     def on_iteration(self, tm: float) -> None:
